@@ -64,7 +64,7 @@ def fit_data(entry, seed):
         if entry.get("frame"):
             return (pd.DataFrame({"a": y, "b": y * 0.5 + 1}),), {}
         return (y,), ({"fh": [1, 2]} if k == "forecaster" else {})
-    ncol = 2 if entry["name"].startswith("column_ensemble") else 1
+    ncol = E.ncol(entry)
     X, yy = E.make_panel(10, ncol, entry.get("tp", 12), seed, noise=2.0)
     return (X, np.asarray(yy, dtype=float) if k == "regressor" else yy), {}
 
